@@ -169,6 +169,60 @@ static void random_int_suite(vf::Rng& r) {
   }
 }
 
+#include <signal.h>
+#include <sys/time.h>
+static volatile sig_atomic_t g_alarm_count = 0;
+static void on_alarm(int) { g_alarm_count = g_alarm_count + 1; }
+
+// Large requests while signals keep arriving (handler installed WITH SA_RESTART, so a correct implementation never
+// sees EINTR; the kernel may still return short counts from big reads of /dev/urandom when a signal is pending).
+// Every requested byte must have been written: no run of >= 16 consecutive bytes may keep the fill pattern
+// (false-alarm probability < 2^-120 per run).
+static void random_data_signal_suite(vf::Rng& r) {
+  if (C->shard >= 2) return;
+  struct sigaction sa, old;
+  memset(&sa, 0, sizeof(sa));
+  sa.sa_handler = on_alarm;
+  sa.sa_flags = SA_RESTART;
+  sigaction(SIGALRM, &sa, &old);
+  struct itimerval it = {{0, 400}, {0, 400}}, off = {{0, 0}, {0, 0}};
+  size_t sizes[] = {1u << 20, (8u << 20) + 4096 * 3 + 17, 32u << 20};
+  for (size_t n : sizes) {
+    for (int rep = 0; rep < 2; rep++) {
+      size_t pad = 64;
+      uint8_t* buf = (uint8_t*)malloc(n + 2 * pad);
+      uint8_t pat = rep ? 0x5A : 0xA5;
+      memset(buf, pat, n + 2 * pad);
+      C->crumb_n("random_data_signals", n, rep);
+      // leave a partially consumed cache behind first (history), then the big request
+      uint8_t small[100];
+      phosg::random_data(small, 1 + r.below(99));
+      setitimer(ITIMER_REAL, &it, nullptr);
+      bool threw = false;
+      try {
+        phosg::random_data(buf + pad, n);
+      } catch (const std::exception& e) {
+        threw = true;
+        C->count("random_data_signal_storm_exceptions");
+      }
+      setitimer(ITIMER_REAL, &off, nullptr);
+      C->evaluations++;
+      if (!threw) {
+        size_t run = 0, worst = 0, worst_at = 0;
+        for (size_t i = 0; i < n; i++) {
+          if (buf[pad + i] == pat) { run++; if (run > worst) { worst = run; worst_at = i + 1 - run; } } else run = 0;
+        }
+        if (worst >= 16) C->violation("random_data:unfilled-under-signals", fmt("%zu consecutive requested bytes were never written (from offset %zu)", worst, worst_at), fmt("random_data(%zu) while SIGALRM fires every 400us", n));
+        for (size_t i = 0; i < pad; i++) if (buf[i] != pat || buf[pad + n + i] != pat) { C->violation("random_data:canary", "byte outside [p,p+n) modified", fmt("n=%zu under signals", n)); break; }
+      }
+      C->cls(fmt("random_data:signal-storm:%s", n <= (1u << 20) ? "1MiB" : n < (32u << 20) ? "8MiB" : "32MiB"));
+      free(buf);
+    }
+  }
+  sigaction(SIGALRM, &old, nullptr);
+  C->count("random_data_signals_delivered", (uint64_t)g_alarm_count);
+}
+
 static void random_data_suite(vf::Rng& r) {
   vector<size_t> sizes;
   for (size_t n = 0; n <= 40; n++) sizes.push_back(n);
@@ -624,15 +678,18 @@ static void matrix_suite(vf::Rng& r) {
   double worst = 0;
   for (uint64_t i = 0; i < n; i++) {
     MD M;
-    int style = r.below(3);
+    int style = r.below(5);
     for (int y = 0; y < 4; y++) {
       double rowsum = 0;
       for (int x = 0; x < 4; x++) if (x != y) {
         double e = style == 0 ? (double)r.range(-9, 9) : ((double)(int64_t)r.next() / 9.3e18) * (style == 1 ? 1.0 : 1e3);
+        if (style >= 3) e = (double)r.range(-5, 5) / 16.0;  // dyadic, row sum <= 15/16: exact arithmetic, special pivots
         M.m[x][y] = e;
         rowsum += fabs(e);
       }
       double dm = rowsum * (1.0 + (double)(r.below(1000) + 1) / 250.0) + (rowsum == 0 ? 1.0 : 0.0);
+      if (style == 3) dm = 1.0;                          // pivots exactly 1 (or -1): "already normalised" rows
+      if (style == 4) dm = (double)(1 << r.below(4));    // pivots exactly 1, 2, 4, 8
       M.m[y][y] = r.chance(1, 2) ? dm : -dm;
     }
     // also require column dominance? Row dominance suffices for stable elimination.
@@ -709,6 +766,7 @@ int main(int argc, char** argv) {
   if (want("random")) {
     random_int_suite(r);
     random_data_suite(r);
+    random_data_signal_suite(r);
   }
   if (want("vector")) {
     v2_suite();
